@@ -216,7 +216,10 @@ def build_graph(case, idmap=None, shift=None, negq=(), info_scale=1.0, split=Non
                 es.append(EdgeOdometry(list(ids), Wm, B.pose(k, e['tz'], e['rz'], shift=zsh, negq=(('z', n) in negq))))
             elif e['cls'] == 'lm':
                 k2 = case['verts'][e['vs'][1] - 1]['k']
-                es.append(EdgeLandmark(list(ids), Wm, B.pose(k2, e['tz']), offset_pose(k, e, n), offset_id=0))
+                if (_bg[0] + n) % 2:
+                    es.append(EdgeLandmark(list(ids), Wm, B.pose(k2, e['tz']), offset_pose(k, e, n), offset_id=0))
+                else:
+                    es.append(EdgeLandmark(list(ids), Wm, B.pose(k2, e['tz']), offset_pose(k, e, n)))          # (no offset id given: it is optional)
             elif e['cls'] == 'prior':
                 es.append(G.PriorEdge(list(ids), Wm, B.pose(k, e['tz'], e['rz'], shift=zsh, negq=(('z', n) in negq))))
             elif e['cls'] == 'relpose':
